@@ -158,6 +158,8 @@ def fixed_mods():
                     mod2=dict(dt='0.5', start='2002.0')))
     out.append(dict(sim=S('fixed-mod', unit='day', start='D2020-01-01', dur='60', dt='1.0'), mod=dict(unit='week'), modkind='sis', extra=['randomnet'],
                     mod2=dict(dt='3.0', stop='D2020-02-01')))
+    # a fractional dt whose constant whole-day step loses a point before the drift exceeds a day
+    out.append(dict(sim=S('fixed-mod', unit='day', start='D1953-12-20', dur='5.0', dt='1.0'), mod=dict(dt='1.5'), modkind='randomnet', extra=[]))
     # a module crossing 31 Dec of a leap year day by day inside year-unit sims (numeric and calendar)
     out.append(dict(sim=S('fixed-mod', unit='year', start='2000', stop='2002', dt='1.0'), mod=dict(unit='day', dt='1.0'), modkind='sis', extra=[]))
     out.append(dict(sim=S('fixed-mod', unit='year', start='D2003-06-01', stop='D2005-03-01', dt='0.25'), mod=dict(unit='day', dt='1.0'), modkind='randomnet', extra=[]))
